@@ -154,7 +154,8 @@ Inductive prim : st -> st -> Prop :=
     prim s (ev (ERet (next_id s) UV_ENOMEM) (ev (EWrite2 (next_id s)) (call0 s (EWrite (next_id s) (sumN bufs)))))
 | p_connect_ev s c : c <> 0%Z -> prim s (ev (EConnect c) s)
 | p_reopen s : closing s = false -> connected s = false -> prim s (ev EReopen (set_writable true s))
-| p_conn_start s : connecting s = false -> prim s (ev (EConnect 0%Z) (set_connecting true s)).
+| p_conn_start s : connecting s = false -> prim s (ev (EConnect 0%Z) (set_connecting true s))
+| p_orphan s : prim s (ev EOrphan s).
 
 Inductive steps : st -> st -> Prop :=
 | st_refl s : steps s s
@@ -288,6 +289,7 @@ Proof.
       constructor; auto. unfold rwf, req_size; simpl. split; lia.
     + apply Forall_app; split; auto.
     + apply Forall_app; auto.
+  - constructor; unfold live; cbn; auto. apply Forall_app3; auto. apply Forall_app; auto.
   - constructor; unfold live; cbn; auto. apply Forall_app3; auto. apply Forall_app; auto.
   - constructor; unfold live; cbn; auto. apply Forall_app3; auto. apply Forall_app; auto.
   - constructor; unfold live; cbn; auto. apply Forall_app3; auto. apply Forall_app; auto.
@@ -533,7 +535,8 @@ Proof.
   change (check_before_write (call0 s (ETry (next_id s) (sumN bufs)))) with (check_before_write s).
   change (oracle (call0 s (ETry (next_id s) (sumN bufs)))) with (oracle s).
   change (connecting (call0 s (ETry (next_id s) (sumN bufs)))) with (connecting s).
-  destruct (connecting s); cbn [orb].
+  change (cancelling (call0 s (ETry (next_id s) (sumN bufs)))) with (cancelling s).
+  destruct (connecting s || cancelling s); cbn [orb].
   { split. apply steps_one, p_try_fail. unfold UV_EAGAIN; lia. unfold aframe; cbn; auto. }
   destruct (N.eqb_spec (wqs s) 0) as [Hz|Hz]; cbn [negb].
   - destruct (check_before_write s) as [e|] eqn:Hc.
@@ -570,10 +573,12 @@ Proof.
     { destruct (shutreq s); auto. rewrite Hw in Hc. cbn in Hc. destruct (shut s); discriminate. }
     set (s1 := set_writable false (set_shutreq true s)).
     assert (P1 : prim s (ev (EShut 0%Z) s1)) by (apply p_shut_accept; auto).
+    destruct (connecting s1).
+    { split; [apply steps_one; exact P1 | unfold aframe; cbn; auto]. }
     destruct (wq s1) eqn:Hq.
     + split.
       * eapply st_step; [exact P1|].
-        apply steps_one. apply p_silent with (s' := ev (EShut 0%Z) (set_fed true s1)). sc.
+        apply steps_one. apply p_silent with (s' := ev (EShut 0%Z) (set_fed true s1)); sc.
       * unfold aframe; cbn; auto.
     + split.
       * apply steps_one; exact P1.
@@ -604,6 +609,15 @@ Proof.
   split; [apply steps_one; exact (p_write2_nomem s bufs Hc) | unfold aframe; cbn; auto].
 Qed.
 
+Lemma orphan_cases x : orphan x = x \/ orphan x = ev EOrphan x.
+Proof. unfold orphan. destruct (cq x); auto. Qed.
+
+Lemma orphan_steps x : steps x (orphan x).
+Proof. destruct (orphan_cases x) as [-> | ->]; [constructor | apply steps_one, p_orphan]. Qed.
+
+Lemma orphan_pq x : pq (orphan x) = pq x.
+Proof. destruct (orphan_cases x) as [-> | ->]; reflexivity. Qed.
+
 Lemma api_connect_sim s : steps s (api_connect s) /\ aframe s (api_connect s).
 Proof.
   unfold api_connect.
@@ -613,54 +627,56 @@ Proof.
   destruct Hcl as (Hcl & Hfd & Hco).
   assert (AF : forall x, pq x = pq s -> aframe s x).
   { intros x Hx. unfold aframe. split; [exact Hx | intros Hf; congruence]. }
-  destruct (connecting s).
-  { destruct (is_tcp s); [split; [apply steps_one, p_connect_ev | apply AF; reflexivity]
+  destruct (connecting s) eqn:Hcg.
+  { destruct (is_tcp s); [split; [apply steps_one, p_connect_ev; unfold UV_EALREADY; lia | apply AF; reflexivity]
                          | split; [constructor | apply AF; reflexivity]]. }
   set (cres := match connres s with [] => None | c :: _ => c end).
   set (sA := set_connres (tl (connres s)) s).
   assert (PA : prim s sA) by (apply p_silent; sc).
   change (is_tcp sA) with (is_tcp s). change (writable sA) with (writable s). change (readable sA) with (readable s).
+  assert (Hnz : conn_pending_ok cres = false -> conn_derr cres <> 0%Z).
+  { destruct cres as [e|]; cbn; [intros _; discriminate | discriminate]. }
   destruct (is_tcp s).
   - (* uv__tcp_connect *)
     set (s1 := if writable s then sA else ev EReopen (set_writable true sA)).
-    assert (S1 : steps s s1 /\ pq s1 = pq s).
+    assert (S1 : steps s s1 /\ pq s1 = pq s /\ connecting s1 = false).
     { unfold s1. destruct (writable s).
-      - split; [apply steps_one; exact PA | reflexivity].
-      - split; [|reflexivity]. eapply st_step; [exact PA|]. apply steps_one. apply p_reopen; auto. }
-    destruct S1 as [S1 Hp1].
+      - split; [apply steps_one; exact PA | split; [reflexivity | exact Hcg]].
+      - split; [|split; [reflexivity | exact Hcg]]. eapply st_step; [exact PA|]. apply steps_one. apply p_reopen; auto. }
+    destruct S1 as (S1 & Hp1 & Hc1).
     set (s2 := set_readable true s1).
     assert (P2 : prim s1 s2) by (apply p_silent; sc).
-    destruct (conn_pending_ok cres).
-    + split; [|apply AF; exact Hp1].
+    destruct (conn_pending_ok cres) eqn:Hok.
+    + split; [|apply AF; rewrite orphan_pq; exact Hp1].
       eapply steps_trans; [exact S1|]. eapply st_step; [exact P2|].
-      eapply st_step; [apply p_silent with (s' := set_armed true (set_connecting true s2)); sc|].
-      apply steps_one, p_connect_ev.
+      eapply st_step; [apply p_silent with (s' := set_armed true (set_derr 0%Z s2)); sc|].
+      eapply st_step; [apply (p_conn_start (set_armed true (set_derr 0%Z s2))); exact Hc1 | apply orphan_steps].
     + destruct (match cres with Some 111%positive => true | _ => false end).
-      * split; [|apply AF; exact Hp1].
+      * split; [|apply AF; rewrite orphan_pq; exact Hp1].
         eapply steps_trans; [exact S1|]. eapply st_step; [exact P2|].
         eapply st_step; [apply p_silent with
-          (s' := set_fed true (set_armed true (set_derr (conn_derr cres) (set_connecting true s2)))); sc|].
-        apply steps_one, p_connect_ev.
+          (s' := set_fed true (set_armed true (set_derr (conn_derr cres) s2))); sc|].
+        eapply st_step; [apply (p_conn_start (set_fed true (set_armed true (set_derr (conn_derr cres) s2)))); exact Hc1
+                        | apply orphan_steps].
       * split; [|apply AF; exact Hp1].
-        eapply steps_trans; [exact S1|]. eapply st_step; [exact P2|]. apply steps_one, p_connect_ev.
+        eapply steps_trans; [exact S1|]. eapply st_step; [exact P2|]. apply steps_one, p_connect_ev; auto.
   - (* uv_pipe_connect2 on the existing socket *)
     destruct (conn_pending_ok cres).
     + set (s1 := if negb (readable s) && negb (writable s)
                  then set_readable true (ev EReopen (set_writable true sA)) else sA).
-      assert (S1 : steps s s1 /\ pq s1 = pq s).
+      assert (S1 : steps s s1 /\ pq s1 = pq s /\ connecting s1 = false).
       { unfold s1. destruct (negb (readable s) && negb (writable s)).
-        - split; [|reflexivity]. eapply st_step; [exact PA|].
+        - split; [|split; [reflexivity | exact Hcg]]. eapply st_step; [exact PA|].
           eapply st_step; [apply p_reopen; auto|]. apply steps_one, p_silent; sc.
-        - split; [apply steps_one; exact PA | reflexivity]. }
-      destruct S1 as [S1 Hp1]. split; [|apply AF; exact Hp1].
+        - split; [apply steps_one; exact PA | split; [reflexivity | exact Hcg]]. }
+      destruct S1 as (S1 & Hp1 & Hc1). split; [|apply AF; rewrite orphan_pq; exact Hp1].
       eapply steps_trans; [exact S1|].
-      eapply st_step; [apply p_silent with (s' := set_armed true (set_derr 0%Z (set_connecting true s1))); sc|].
-      apply steps_one, p_connect_ev.
-    + split; [|apply AF; reflexivity].
+      eapply st_step; [apply p_silent with (s' := set_armed true (set_derr 0%Z s1)); sc|].
+      eapply st_step; [apply (p_conn_start (set_armed true (set_derr 0%Z s1))); exact Hc1 | apply orphan_steps].
+    + split; [|apply AF; rewrite orphan_pq; reflexivity].
       eapply st_step; [exact PA|].
-      eapply st_step; [apply p_silent with
-        (s' := set_fed true (set_derr (conn_derr cres) (set_connecting true sA))); sc|].
-      apply steps_one, p_connect_ev.
+      eapply st_step; [apply p_silent with (s' := set_fed true (set_derr (conn_derr cres) sA)); sc|].
+      eapply st_step; [apply (p_conn_start (set_fed true (set_derr (conn_derr cres) sA))); exact Hcg | apply orphan_steps].
 Qed.
 
 Lemma api_sim s o : steps s (api s o) /\ aframe s (api s o).
@@ -786,27 +802,36 @@ Proof.
       * rewrite B. exact Hp1.
 Qed.
 
-Lemma stream_connect_sim s : pq s = [] ->
+Lemma stream_connect_sim s : connecting s = true -> pq s = [] ->
   steps s (stream_connect beh s) /\ pq (stream_connect beh s) = [].
 Proof.
-  intros Hp. unfold stream_connect.
+  intros Hcg Hp. unfold stream_connect.
   match goal with |- context [let '(error, s1) := ?X in _] => destruct X as [error s1] eqn:HX end.
-  assert (SC : same_core s s1).
-  { destruct (negb (derr s =? 0)%Z); [inversion HX; sc|]. destruct (sockerr s); inversion HX; sc. }
-  assert (P1 : prim s s1) by (apply p_silent; exact SC).
+  assert (SC : same_core s s1 /\ connecting s1 = connecting s).
+  { destruct (negb (derr s =? 0)%Z); [inversion HX; split; [sc | reflexivity]|].
+    destruct (sockerr s); inversion HX; split; try reflexivity; sc. }
+  destruct SC as [SC SCc].
+  assert (P1 : prim s s1) by (apply p_silent; [exact SC | exact SCc]).
   assert (Hp1 : pq s1 = []) by (destruct SC as (_ & _ & E & _); congruence).
+  assert (Hc1 : connecting s1 = true) by congruence.
   destruct (error =? - EINPROGRESS)%Z.
   { split; [apply steps_one; exact P1 | exact Hp1]. }
   set (s2 := set_connecting false s1).
   match goal with |- context [run_cb beh (ev (EConnCb error) ?x)] => set (s3 := x) end.
-  assert (P3 : prim s1 s3 /\ pq s3 = []).
-  { unfold s3. destruct (error <? 0)%Z; destruct ((_ : bool) || _); cbn; split; try exact Hp1; apply p_silent; sc. }
-  destruct P3 as [P3 Hp3].
   set (s3' := ev (EConnCb error) s3).
-  assert (P3' : prim s3 s3') by apply p_conncb.
+  assert (P3 : steps s1 s3' /\ pq s3' = []).
+  { unfold s3', s3, s2. destruct (error <? 0)%Z; destruct ((_ : bool) || _); cbn [orb andb]; (split; [|exact Hp1]).
+    - eapply st_step; [apply p_silent with (s' := set_armed false s1); sc|].
+      apply steps_one. apply (p_conn_done (set_armed false s1) error). exact Hc1.
+    - apply steps_one. apply (p_conn_done s1 error). exact Hc1.
+    - eapply st_step; [apply p_silent with (s' := set_connected true (set_armed false s1)); sc|].
+      apply steps_one. apply (p_conn_done (set_connected true (set_armed false s1)) error). exact Hc1.
+    - eapply st_step; [apply p_silent with (s' := set_connected true s1); sc|].
+      apply steps_one. apply (p_conn_done (set_connected true s1) error). exact Hc1. }
+  destruct P3 as [P3 Hp3].
   destruct (run_cb_sim s3') as [A [B _]].
   set (s4 := run_cb beh s3') in *.
-  assert (S4 : steps s s4) by (eapply st_step; [exact P1|]; eapply st_step; [exact P3|]; eapply st_step; [exact P3'|]; exact A).
+  assert (S4 : steps s s4) by (eapply st_step; [exact P1|]; eapply steps_trans; [exact P3 | exact A]).
   assert (Hp4 : pq s4 = []) by (rewrite B; exact Hp3).
   destruct (negb (fdopen s4)); [split; auto|].
   destruct (error <? 0)%Z; [|split; auto].
@@ -823,13 +848,14 @@ Lemma stream_io_sim s : Inv0 s -> pq s = [] ->
   steps s (stream_io beh s) /\ pq (stream_io beh s) = [].
 Proof.
   intros I Hp. unfold stream_io.
-  destruct (connecting s); [apply stream_connect_sim; auto|].
+  destruct (connecting s) eqn:Hcg; [apply stream_connect_sim; auto|].
   destruct (write_loop_sim (write_fuel s) 32 s) as [A F]. fold (uv_write_queue s) in *.
   set (s1 := uv_write_queue s) in *.
   assert (Hp1 : pq s1 = []) by (destruct F as (F1 & _); congruence).
   destruct (write_callbacks_sim s1 Hp1) as (B & Hp2 & _).
   set (s2 := write_callbacks beh s1) in *.
   assert (S2 : steps s s2) by eauto using steps_trans.
+  destruct (connecting s2); [split; auto|].
   destruct (wq s2) eqn:Hq; [|split; auto].
   destruct (cq s2) eqn:Hc; [|split; auto].
   destruct (drain_sim s2 Hq Hc Hp2) as [C D].
@@ -844,17 +870,22 @@ Proof.
   assert (P0 : prim s s0) by (apply p_silent; sc).
   assert (Hfd0 : fdopen s0 = false) by (apply I in Hc; apply Hc).
   set (sc1 := if connecting s0
-              then set_connecting false (run_cb beh (ev (EConnCb UV_ECANCELED) s0)) else s0).
+              then set_cancelling false
+                     (run_cb beh (ev (EConnCb UV_ECANCELED) (set_cancelling true (set_connecting false s0))))
+              else s0).
   assert (S1 : steps s0 sc1 /\ pq sc1 = [] /\ fdopen sc1 = false).
-  { unfold sc1. destruct (connecting s0).
-    - assert (Pb : prim s0 (ev (EConnCb UV_ECANCELED) s0)) by apply p_conncb.
-      destruct (run_cb_sim (ev (EConnCb UV_ECANCELED) s0)) as [A [B1 B2]].
-      set (sb := run_cb beh (ev (EConnCb UV_ECANCELED) s0)) in *.
-      assert (Pc : prim sb (set_connecting false sb)) by (apply p_silent; sc).
+  { unfold sc1. destruct (connecting s0) eqn:Hcg.
+    - set (sa' := set_cancelling true s0).
+      assert (Pa : prim s0 sa') by (apply p_silent; sc).
+      assert (Pb : prim sa' (ev (EConnCb UV_ECANCELED) (set_connecting false sa'))) by (apply p_conn_done; exact Hcg).
+      destruct (run_cb_sim (ev (EConnCb UV_ECANCELED) (set_connecting false sa'))) as [A [B1 B2]].
+      set (sb := run_cb beh (ev (EConnCb UV_ECANCELED) (set_connecting false sa'))) in *.
+      assert (Pc : prim sb (set_cancelling false sb)) by (apply p_silent; sc).
       split; [|split].
-      + eapply st_step; [exact Pb|]. eapply steps_trans; [exact A|]. apply steps_one; exact Pc.
-      + cbn. rewrite B1. exact Hp.
-      + cbn. apply B2. exact Hfd0.
+      + change (steps s0 (set_cancelling false sb)).
+        eapply st_step; [exact Pa|]. eapply st_step; [exact Pb|]. eapply steps_trans; [exact A|]. apply steps_one; exact Pc.
+      + change (pq sb = []). rewrite B1. exact Hp.
+      + change (fdopen sb = false). apply B2. exact Hfd0.
     - split; [constructor | split; auto]. }
   destruct S1 as (S1 & Hp1' & Hfd1).
   set (s1 := flush sc1).
@@ -1010,7 +1041,7 @@ Definition ev_id_lt (n : nat) (e : event) : Prop :=
 Definition neutral (e : event) : Prop :=
   match e with
   | EShut _ | ESysShut _ | EShutCb _ | ECloseCb | EQ _ | ETry _ _ | ETryRet _ _ | EConnCb _
-  | EWrite2 _ | EFd _ | EFdFail _ | EConnect _ | EReopen => True
+  | EWrite2 _ | EFd _ | EFdFail _ | EConnect _ | EReopen | EOrphan => True
   | _ => False
   end.
 
@@ -1361,6 +1392,7 @@ Proof.
   - apply I2_neutral; simpl; auto.
   - apply I2_neutral; simpl; auto.
   - apply I2_neutral; simpl; auto.
+  - apply I2_neutral; simpl; auto.
 Qed.
 
 Lemma Inv12_steps s s' : steps s s' -> Inv1 s /\ Inv2 s -> Inv1 s' /\ Inv2 s'.
@@ -1665,6 +1697,7 @@ Proof.
   - apply I3_plain; simpl; auto.
   - apply I3_plain; simpl; auto.
   - apply I3_plain; simpl; auto.
+  - apply I3_plain; simpl; auto.
 Qed.
 
 Lemma Inv3_init blk o sa pw c ip : Inv3 (init blk o sa pw c ip).
@@ -1880,7 +1913,7 @@ Definition inert (e : event) : Prop :=
 Lemma Inv4_inert s e : inert e -> Inv4 s -> Inv4 (ev e s).
 Proof.
   intros Hi. apply Inv4_event.
-  - intros X _. unfold hold_ok. destruct X as [| | | | | | z | | | | | | | | | |]; auto; try (destruct e; simpl in *; tauto).
+  - intros X _. unfold hold_ok. destruct X as [| | | | | | z | | | | | | | | | | |]; auto; try (destruct e; simpl in *; tauto).
     destruct z; auto. destruct e; simpl in *; tauto.
   - destruct e; simpl in *; tauto.
 Qed.
@@ -1904,7 +1937,7 @@ Proof.
   - intros c H. destruct (E c H) as [_ X]. rewrite X in Hw. discriminate.
 Qed.
 
-Ltac hold_cases X z a c := destruct X as [| | | | | | z | a | c | | | | | | | |]; unfold hold_ok; simpl; auto;
+Ltac hold_cases X z a c := destruct X as [| | | | | | z | a | c | | | | | | | | |]; unfold hold_ok; simpl; auto;
                            [destruct z; simpl; auto | ..].
 
 (* the trace only grows *)
@@ -2017,7 +2050,7 @@ Proof.
     apply (Inv4_state s); auto. unfold idle; cbn. intros (A & B & C). rewrite A, B. auto.
   - apply Inv4_inert; simpl; auto.
   - apply Inv4_inert; simpl; auto.
-  - apply Inv4_inert; simpl; auto.
+  - apply Inv4_inert; simpl; auto. apply (Inv4_state s); auto.
   - (* fd *)
     apply Inv4_inert; simpl; auto. apply (Inv4_state s); auto; cbn.
     + intros Hq. rewrite Hq in H. discriminate.
@@ -2235,14 +2268,14 @@ Proof.
   - apply api_write_kc_cd.
   - unfold api_try.
     set (s0 := ev (ETry (next_id s) (sumN bufs)) (set_next_id (S (next_id s)) s)).
-    destruct (connecting s0 || negb (wqs s0 =? 0)); [split; [apply KC_same | unfold CD]; auto|].
+    destruct (connecting s0 || cancelling s0 || negb (wqs s0 =? 0)); [split; [apply KC_same | unfold CD]; auto|].
     destruct (check_before_write s0); [split; [apply KC_same | unfold CD]; auto|].
     destruct (sys_write (oracle s0) (offered bufs)) as [res o']. destruct res;
       (split; [apply KC_same | unfold CD]; auto).
   - unfold api_shutdown.
     destruct (negb (writable s) || shut s || shutreq s || closing s || closed s);
       [split; [apply KC_same | unfold CD]; auto|].
-    cbn. destruct (wq s); (split; [apply KC_same | unfold CD]; auto).
+    cbn. destruct (connecting s); [|destruct (wq s)]; (split; [apply KC_same | unfold CD]; auto).
   - unfold api_close. destruct (closing s) eqn:Hc; [split; [apply KC_refl | apply CD_refl]|].
     split; [|unfold CD; auto]. unfold KC, FC; cbn. auto.
   - apply api_write2_kc_cd.
@@ -2298,20 +2331,74 @@ Proof.
       right; left; reflexivity.
 Qed.
 
-Lemma api_prog s o : o <> OConnect -> Prog s -> Prog (api s o).
+Lemma api_connect_kc s : KC s (api_connect s).
 Proof.
-  intros Hne P. destruct o; cbn [api].
+  unfold api_connect.
+  destruct (closing s || negb (fdopen s) || connected s); [apply KC_refl|].
+  destruct (connecting s); [destruct (is_tcp s); [apply KC_same; reflexivity | apply KC_refl]|].
+  destruct (is_tcp (set_connres (tl (connres s)) s)).
+  - destruct (writable (set_connres (tl (connres s)) s));
+      destruct (conn_pending_ok _); try (apply KC_same; reflexivity);
+      destruct (match _ with Some 111%positive => true | _ => false end); apply KC_same; reflexivity.
+  - destruct (conn_pending_ok _); [|apply KC_same; reflexivity].
+    destruct (negb _ && negb _); apply KC_same; reflexivity.
+Qed.
+
+Lemma api_kc s o : KC s (api s o).
+Proof.
+  destruct o; try (apply api_kc_cd; discriminate). apply api_connect_kc.
+Qed.
+
+Lemma api_connect_prog s : Prog s -> Prog (api_connect s).
+Proof.
+  intros P. unfold api_connect.
+  destruct (closing s || negb (fdopen s) || connected s) eqn:Hg; [exact P|].
+  assert (Hcl : closing s = false /\ fdopen s = true) by (destruct (closing s), (fdopen s), (connected s); try discriminate; auto).
+  destruct Hcl as [Hcl Hfd].
+  destruct (connecting s) eqn:Hcg.
+  { destruct (is_tcp s); [apply (Prog_same s); auto | exact P]. }
+  pose proof P as [F _].
+  set (cres := match connres s with [] => None | c :: _ => c end).
+  set (sA := set_connres (tl (connres s)) s).
+  assert (Hd : conn_pending_ok cres = false ->
+               (conn_derr cres < 0)%Z /\ conn_derr cres <> (- EINPROGRESS)%Z).
+  { destruct cres as [e|]; cbn; [|discriminate]. intros He. split; [lia|].
+    intros X. inversion X; subst. discriminate. }
+  assert (G : forall x, closing x = closing s -> fdopen x = fdopen s -> connecting x = true ->
+              C1 x -> (armed x = true \/ fed x = true) -> Prog x).
+  { intros x E1 E2 E3 HC Haf. split; [unfold FC; rewrite E1, E2; exact F|]. right. rewrite E3. auto. }
+  assert (G0 : forall x, closing x = closing s -> fdopen x = fdopen s -> connecting x = false ->
+               wq x = wq s -> armed x = armed s -> fed x = fed s -> Prog x).
+  { intros x E1 E2 E3 E4 E5 E6. destruct P as [F' [X|X]]; (split; [unfold FC; rewrite E1, E2; exact F'|]);
+      [left; rewrite E1; exact X | right]. rewrite E3, E4, E5, E6. rewrite Hcg in X. exact X. }
+  change (is_tcp sA) with (is_tcp s). change (writable sA) with (writable s). change (readable sA) with (readable s).
+  destruct (is_tcp s).
+  - destruct (conn_pending_ok cres) eqn:Hok.
+    + destruct (writable s); apply G; try reflexivity; try (left; split; reflexivity); left; reflexivity.
+    + destruct (match cres with Some 111%positive => true | _ => false end).
+      * destruct (writable s); apply G; try reflexivity; try (right; apply Hd; reflexivity); left; reflexivity.
+      * destruct (writable s); apply G0; try reflexivity; exact Hcg.
+  - destruct (conn_pending_ok cres) eqn:Hok.
+    + destruct (negb (readable s) && negb (writable s)); apply G; try reflexivity;
+        try (left; split; reflexivity); left; reflexivity.
+    + apply G; try reflexivity; [right; apply Hd; reflexivity | right; reflexivity].
+Qed.
+
+Lemma api_prog s o : Prog s -> Prog (api s o).
+Proof.
+  intros P. destruct o; cbn [api].
   - apply api_write_prog; auto.
   - unfold api_try.
     set (s0 := ev (ETry (next_id s) (sumN bufs)) (set_next_id (S (next_id s)) s)).
-    destruct (connecting s0 || negb (wqs s0 =? 0)); [apply (Prog_same s); auto|].
+    destruct (connecting s0 || cancelling s0 || negb (wqs s0 =? 0)); [apply (Prog_same s); auto|].
     destruct (check_before_write s0); [apply (Prog_same s); auto|].
     destruct (sys_write (oracle s0) (offered bufs)) as [res o']. destruct res; apply (Prog_same s); auto.
   - unfold api_shutdown.
     destruct (negb (writable s) || shut s || shutreq s || closing s || closed s); [apply (Prog_same s); auto|].
-    cbn. destruct (wq s) eqn:Hq; [|apply (Prog_same s); auto].
+    cbn. destruct (connecting s) eqn:Hcg; [apply (Prog_same s); auto|].
+    destruct (wq s) eqn:Hq; [|apply (Prog_same s); auto].
     destruct P as [F P]. split; [exact F|]. destruct P as [P|P]; [left; exact P | right].
-    cbn. destruct (connecting s); [|auto]. destruct P as [X Y]. split; [exact X | auto].
+    cbn. rewrite Hcg. auto.
   - unfold api_close. destruct (closing s) eqn:Hc; [exact P|].
     split; [unfold FC; cbn; auto | left; reflexivity].
   - apply api_write2_prog; auto.
@@ -2320,8 +2407,59 @@ Proof.
     destruct (needs_alloc bufs); [|apply api_write_prog; auto]. apply (Prog_same s); auto.
   - unfold api_write2_nomem. destruct (check_before_write2 s); [apply api_write2_prog; auto|].
     destruct (needs_alloc bufs); [|apply api_write2_prog; auto]. apply (Prog_same s); auto.
-  - congruence.
+  - apply api_connect_prog; auto.
   - exact P.
+Qed.
+
+(* while connecting is set nothing but a new connect changes the wake-ups; used where Prog itself
+   does not hold (inside the callback of a failed connect) *)
+Definition WP (s : st) : Prop :=
+  closing s = true \/ (connecting s = true -> C1 s /\ (armed s = true \/ fed s = true)).
+
+Lemma api_connect_c1 s : connecting s = false ->
+  connecting (api_connect s) = true ->
+  C1 (api_connect s) /\ (armed (api_connect s) = true \/ fed (api_connect s) = true).
+Proof.
+  intros Hcg. unfold api_connect.
+  destruct (closing s || negb (fdopen s) || connected s); [congruence|].
+  rewrite Hcg.
+  set (cres := match connres s with [] => None | c :: _ => c end).
+  set (sA := set_connres (tl (connres s)) s).
+  assert (Hd : conn_pending_ok cres = false ->
+               (conn_derr cres < 0)%Z /\ conn_derr cres <> (- EINPROGRESS)%Z).
+  { destruct cres as [e|]; cbn; [|discriminate]. intros He. split; [lia|].
+    intros X. inversion X; subst. discriminate. }
+  change (is_tcp sA) with (is_tcp s). change (writable sA) with (writable s). change (readable sA) with (readable s).
+  destruct (is_tcp s).
+  - destruct (conn_pending_ok cres) eqn:Hok.
+    + destruct (writable s); intros _; (split; [left; split; reflexivity | left; reflexivity]).
+    + destruct (match cres with Some 111%positive => true | _ => false end).
+      * destruct (writable s); intros _; (split; [right; apply Hd; reflexivity | left; reflexivity]).
+      * destruct (writable s); cbn; intros X; congruence.
+  - destruct (conn_pending_ok cres) eqn:Hok.
+    + destruct (negb (readable s) && negb (writable s)); intros _; (split; [left; split; reflexivity | left; reflexivity]).
+    + intros _. split; [right; apply Hd; reflexivity | right; reflexivity].
+Qed.
+
+Lemma api_wp s o : FC s -> WP s -> WP (api s o).
+Proof.
+  intros F W.
+  destruct (connecting s) eqn:Hcg.
+  - (* Prog holds in a connecting state as soon as WP does *)
+    assert (P : Prog s).
+    { split; [exact F|]. destruct W as [W|W]; [left; exact W | right]. rewrite Hcg. exact (W Hcg). }
+    destruct (api_prog s o P) as [_ [X|X]]; [left; exact X | right]. intros Hc. rewrite Hc in X. exact X.
+  - right. destruct o;
+      try (match goal with |- connecting (api s ?o0) = true -> _ =>
+             assert (Hne : o0 <> OConnect) by discriminate;
+             destruct (api_kc_cd s o0 Hne) as [_ [E _]]; intros Hc; congruence end).
+    exact (api_connect_c1 s Hcg).
+Qed.
+
+Lemma apis_wp os : forall s, FC s -> WP s -> WP (apis s os) /\ FC (apis s os).
+Proof.
+  induction os as [|o os IH]; intros s F W; cbn [apis]; [auto|].
+  apply IH; [apply api_kc; exact F | apply api_wp; auto].
 Qed.
 
 Lemma apis_kc_cd os : noconn os -> forall s, KC s (apis s os) /\ CD s (apis s os).
@@ -2331,8 +2469,14 @@ Proof.
   split; eauto using KC_trans, CD_trans.
 Qed.
 
-Lemma apis_prog os : noconn os -> forall s, Prog s -> Prog (apis s os).
-Proof. induction 1 as [|o os Ho Hos IH]; intros s P; cbn [apis]; auto. apply IH, api_prog; auto. Qed.
+Lemma apis_kc os : forall s, KC s (apis s os).
+Proof.
+  induction os as [|o os IH]; intros s; cbn [apis]; [apply KC_refl|].
+  eapply KC_trans; [apply api_kc | apply IH].
+Qed.
+
+Lemma apis_prog os : forall s, Prog s -> Prog (apis s os).
+Proof. induction os as [|o os IH]; intros s P; cbn [apis]; auto. apply IH, api_prog; auto. Qed.
 
 Section ProgCb.
 Variable beh : nat -> list op.
@@ -2346,7 +2490,16 @@ Proof.
 Qed.
 
 Lemma run_cb_prog s : Prog s -> Prog (run_cb beh s).
-Proof. intros P. unfold run_cb. apply apis_prog; [apply Hbeh|]. apply (Prog_same s); auto. Qed.
+Proof. intros P. unfold run_cb. apply apis_prog. apply (Prog_same s); auto. Qed.
+
+Lemma run_cb_kc s : KC s (run_cb beh s).
+Proof. unfold run_cb. eapply KC_trans; [|apply apis_kc]. apply KC_same; reflexivity. Qed.
+
+Lemma run_cb_wp s : FC s -> WP s -> WP (run_cb beh s) /\ FC (run_cb beh s).
+Proof.
+  intros F W. unfold run_cb. apply apis_wp; [exact F|].
+  destruct W as [W|W]; [left; exact W | right; exact W].
+Qed.
 
 Lemma cb_step_same r rest s :
   let s3 := ev (ECb (r_id r) (r_err r)
@@ -2367,6 +2520,14 @@ Proof.
   - eapply CD_trans; [unfold CD; split; eassumption|]. eapply CD_trans; eauto.
 Qed.
 
+Lemma cb_loop_kc l : forall s, KC s (cb_loop beh l s).
+Proof.
+  induction l as [|r rest IH]; intros s; cbn [cb_loop]; [apply KC_refl|].
+  cbv zeta. destruct (cb_step_same r rest s) as (E1 & E2 & _).
+  match goal with |- context [run_cb beh ?x] => set (s3 := x) in * end.
+  eapply KC_trans; [apply (KC_same s s3); assumption|]. eapply KC_trans; [apply run_cb_kc | apply IH].
+Qed.
+
 Lemma cb_loop_prog l : forall s, Prog s -> Prog (cb_loop beh l s).
 Proof.
   induction l as [|r rest IH]; intros s P; cbn [cb_loop]; auto.
@@ -2381,6 +2542,12 @@ Proof.
   destruct (cb_loop_kc_cd (r :: l) (set_pq (r :: l) (set_cq [] s))) as [A B].
   split; [eapply KC_trans; [|exact A]; apply KC_same; reflexivity
          | eapply CD_trans; [|exact B]; unfold CD; auto].
+Qed.
+
+Lemma write_callbacks_kc s : KC s (write_callbacks beh s).
+Proof.
+  unfold write_callbacks. destruct (cq s) as [|r l]; [apply KC_refl|].
+  eapply KC_trans; [|apply cb_loop_kc]. apply KC_same; reflexivity.
 Qed.
 
 Lemma write_callbacks_prog s : Prog s -> Prog (write_callbacks beh s).
@@ -2436,7 +2603,7 @@ Lemma drain_kc s : KC s (drain beh s).
 Proof.
   destruct (drain_shape s) as (s5 & [E|E] & A & B & _); rewrite E.
   - apply KC_same; auto.
-  - eapply KC_trans; [apply (KC_same s s5); auto | apply run_cb_kc_cd].
+  - eapply KC_trans; [apply (KC_same s s5); auto | apply run_cb_kc].
 Qed.
 
 Lemma drain_prog s : FC s -> connecting s = false -> wq s = [] \/ closing s = true -> Prog (drain beh s).
@@ -2462,14 +2629,14 @@ Proof.
   match goal with |- context [run_cb beh (ev (EConnCb error) ?x)] => set (s3 := x) end.
   assert (K3 : KC s (ev (EConnCb error) s3)).
   { apply KC_same; unfold s3; destruct (error <? 0)%Z; destruct ((_ : bool) || _); cbn; auto. }
-  destruct (run_cb_kc_cd (ev (EConnCb error) s3)) as [K4 _].
+  pose proof (run_cb_kc (ev (EConnCb error) s3)) as K4.
   set (s4 := run_cb beh (ev (EConnCb error) s3)) in *.
   assert (K : KC s s4) by (eapply KC_trans; eauto).
   destruct (negb (fdopen s4)); auto.
   destruct (error <? 0)%Z; auto.
   assert (K5 : KC s (write_callbacks beh (flush s4))).
   { eapply KC_trans; [exact K|]. eapply KC_trans; [apply (KC_same s4 (flush s4)); reflexivity|].
-    apply write_callbacks_kc_cd. }
+    apply write_callbacks_kc. }
   set (s5 := write_callbacks beh (flush s4)) in *.
   destruct (shutreq s5 && negb (connecting s5) && fdopen s5); auto.
   destruct (wq s5); auto. destruct (cq s5); auto.
@@ -2500,21 +2667,24 @@ Proof.
   { unfold s3. destruct (error <? 0)%Z; destruct ((_ : bool) || _); cbn; auto. }
   destruct E3 as (E3c & E3f & E3co & E3w).
   assert (F3 : FC (ev (EConnCb error) s3)) by (unfold FC; cbn; rewrite E3c, E3f; exact F1).
-  destruct (run_cb_kc_cd (ev (EConnCb error) s3)) as [[K4a K4b] [K4c _]].
   destruct (Z.ltb_spec error 0) as [Hneg|Hpos].
   - (* failed: whatever the callback does, the queue is flushed afterwards *)
+    assert (W3 : WP (ev (EConnCb error) s3)).
+    { right. change (connecting (ev (EConnCb error) s3)) with (connecting s3). rewrite E3co. discriminate. }
+    destruct (run_cb_wp (ev (EConnCb error) s3) F3 W3) as [W4 F4].
     set (s4 := run_cb beh (ev (EConnCb error) s3)) in *.
-    assert (F4 : FC s4) by (apply K4b; exact F3).
     destruct (fdopen s4) eqn:Hfd; cbn [negb].
-    + assert (Hc4 : connecting (flush s4) = false).
-      { change (connecting (flush s4)) with (connecting s4). rewrite K4c. exact E3co. }
-      assert (P5 : Prog (write_callbacks beh (flush s4))).
-      { apply write_callbacks_prog. split; [exact F4|]. right. rewrite Hc4. left; reflexivity. }
-      destruct (write_callbacks_kc_cd (flush s4)) as [_ [Cc _]].
+    + assert (Pf : Prog (flush s4)).
+      { split; [exact F4|]. destruct W4 as [W4|W4]; [left; exact W4 | right].
+        change (connecting (flush s4)) with (connecting s4).
+        destruct (connecting s4) eqn:Hc4; [exact (W4 eq_refl) | left; reflexivity]. }
+      pose proof (write_callbacks_prog _ Pf) as P5.
       set (s5 := write_callbacks beh (flush s4)) in *.
-      destruct (shutreq s5 && negb (connecting s5) && fdopen s5); auto.
-      destruct (wq s5) eqn:Hq5; auto. destruct (cq s5); auto.
-      apply drain_prog; [apply P5 | rewrite Cc; exact Hc4 | left; exact Hq5].
+      destruct (connecting s5) eqn:Hc5.
+      * rewrite Bool.andb_false_r. cbn. exact P5.
+      * destruct (shutreq s5 && negb false && fdopen s5); auto.
+        destruct (wq s5) eqn:Hq5; auto. destruct (cq s5); auto.
+        apply drain_prog; [apply P5 | exact Hc5 | left; exact Hq5].
     + split; [exact F4 | left; apply F4; exact Hfd].
   - (* connected: POLLOUT stays armed iff something is queued or a shutdown is pending *)
     assert (Ha : armed s1 = true).
@@ -2536,9 +2706,10 @@ Proof.
   unfold stream_io. destruct (connecting s); [apply stream_connect_kc|].
   destruct (uv_write_queue_frame s) as (A & B & _).
   assert (K1 : KC s (uv_write_queue s)) by (apply KC_same; auto).
-  destruct (write_callbacks_kc_cd (uv_write_queue s)) as [K2 _].
+  pose proof (write_callbacks_kc (uv_write_queue s)) as K2.
   set (s2 := write_callbacks beh (uv_write_queue s)) in *.
   assert (K : KC s s2) by (eapply KC_trans; eauto).
+  destruct (connecting s2); auto.
   destruct (wq s2); auto. destruct (cq s2); auto.
   eapply KC_trans; [exact K | apply drain_kc].
 Qed.
@@ -2547,17 +2718,16 @@ Lemma stream_io_prog s : PreIO s -> Prog (stream_io beh s).
 Proof.
   intros [F H].
   destruct H as [Hcl|H].
-  { (* closing: stays closing *)
-    destruct (stream_io_kc s) as [A B]. split; [apply B; exact F | left; apply A; exact Hcl]. }
+  { destruct (stream_io_kc s) as [A B]. split; [apply B; exact F | left; apply A; exact Hcl]. }
   unfold stream_io. destruct (connecting s) eqn:Hc; [apply stream_connect_prog; auto|].
   destruct (uv_write_queue_frame s) as (A & B & C & D).
   assert (P1 : Prog (uv_write_queue s)).
   { split; [unfold FC; rewrite A, B; exact F|]. right. rewrite C, Hc. apply write_loop_prog. }
   pose proof (write_callbacks_prog _ P1) as P2.
-  destruct (write_callbacks_kc_cd (uv_write_queue s)) as [_ [Cc _]].
   set (s2 := write_callbacks beh (uv_write_queue s)) in *.
+  destruct (connecting s2) eqn:Hc2; auto.
   destruct (wq s2) eqn:Hq; auto. destruct (cq s2); auto.
-  apply drain_prog; [apply P2 | rewrite Cc, C; exact Hc | left; exact Hq].
+  apply drain_prog; [apply P2 | exact Hc2 | left; exact Hq].
 Qed.
 
 Lemma destroy_prog s : FC s -> closing s = true -> Prog (destroy beh s).
@@ -2567,9 +2737,9 @@ Proof.
   match goal with |- context [flush ?x] => set (sc1 := x) end.
   assert (K1 : KC s sc1).
   { unfold sc1. destruct (connecting s0); [|apply KC_same; reflexivity].
-    eapply KC_trans; [apply (KC_same s (ev (EConnCb UV_ECANCELED) s0)); reflexivity|].
-    eapply KC_trans; [apply run_cb_kc_cd|]. apply KC_same; reflexivity. }
-  destruct (write_callbacks_kc_cd (flush sc1)) as [K2 _].
+    eapply KC_trans; [apply (KC_same s (ev (EConnCb UV_ECANCELED) (set_cancelling true (set_connecting false s0)))); reflexivity|].
+    eapply KC_trans; [apply run_cb_kc|]. apply KC_same; reflexivity. }
+  pose proof (write_callbacks_kc (flush sc1)) as K2.
   pose proof (drain_kc (write_callbacks beh (flush sc1))) as K3.
   assert (K : KC s (drain beh (write_callbacks beh (flush sc1)))).
   { eapply KC_trans; [exact K1|]. eapply KC_trans; [apply (KC_same sc1 (flush sc1)); reflexivity|].
@@ -2605,15 +2775,15 @@ Proof.
   apply andb_prop in Hc. destruct Hc as [Hc _]. apply destroy_prog; [apply P3 | exact Hc].
 Qed.
 
-Lemma step_prog s o : o <> OConnect -> Prog s -> Prog (step beh s o).
+Lemma step_prog s o : Prog s -> Prog (step beh s o).
 Proof.
-  intros Hne P. unfold step. apply (Prog_same (match o with ORun => run_iter beh s | _ => api s o end)); auto.
-  destruct o; try (apply api_prog; auto; fail); try congruence. apply run_iter_prog; auto.
+  intros P. unfold step. apply (Prog_same (match o with ORun => run_iter beh s | _ => api s o end)); auto.
+  destruct o; try (apply api_prog; auto; fail). apply run_iter_prog; auto.
 Qed.
 
-Lemma exec_prog os : noconn os -> forall s, Prog s -> Prog (exec beh s os).
+Lemma exec_prog os : forall s, Prog s -> Prog (exec beh s os).
 Proof.
-  induction 1 as [|o os Ho Hos IH]; intros s P; cbn [exec]; auto. apply IH, step_prog; auto.
+  induction os as [|o os IH]; intros s P; cbn [exec]; auto. apply IH, step_prog; auto.
 Qed.
 
 End ProgCb.
@@ -2630,31 +2800,31 @@ Proof.
   - split; [unfold FC; cbn; discriminate|]. right; cbn. auto.
 Qed.
 
-(* C05_progress_partial: scripts in which no connect is started again on the handle *)
+(* C05_progress: for every script - connect retries from any callback included - a non-empty write
+   queue or a pending connect on a stream that is not closing has POLLOUT armed or its watcher in the
+   pending queue *)
 Theorem progress beh blk o sa pw c ip ops :
-  noconn ops -> (forall k, noconn (beh k)) ->
   let s := exec beh (init blk o sa pw c ip) ops in
   wq s <> [] \/ connecting s = true -> closing s = false -> armed s = true \/ fed s = true.
 Proof.
-  intros Hops Hbeh s Hq Hc.
-  assert (P : Prog s) by (apply exec_prog; auto; apply Prog_init).
+  intros s Hq Hc.
+  assert (P : Prog s) by (apply exec_prog; apply Prog_init).
   destruct P as [_ [P|P]]; [congruence|].
   destruct (connecting s); [apply P|]. destruct Hq as [Hq|Hq]; [|discriminate].
   destruct P as [P|P]; [contradiction | exact P].
 Qed.
 
-(* C05_progress_refuted: a connect started from a write callback; uv__stream_io then finds both queues
-   empty and uv__drain stops POLLOUT: the connect is pending with no wake-up *)
-Definition beh_strand (k : nat) : list op := match k with 1%nat => [OConnect] | _ => [] end.
+(* the input on which a connect started from a write callback was stranded by uv__drain before the
+   repair of uv__stream_io (repo commit 5ec9be1): now the retried connect completes *)
+Definition beh_strand (k : nat) : list op := match k with 1%nat => [OConnect; OConnect] | _ => [] end.
 
-Theorem progress_refuted :
-  exists beh cfg ops,
-    let s := exec beh (init false [AErr 32] 0%Z [] cfg false) ops in
-    connecting s = true /\ closing s = false /\ armed s = false /\ fed s = false.
-Proof.
-  exists beh_strand, (Some (true, Some 115%positive, [111%Z], [None])), [ORun; OWrite [1]; ORun; ORun].
-  vm_compute. repeat split.
-Qed.
+Example connect_from_write_cb_former_witness :
+  trace (exec beh_strand (init false [AErr 32] 0%Z []
+                            (Some (true, Some 115%positive, [111%Z; 0%Z], [Some 103%positive; Some 115%positive])) false)
+              [ORun; OWrite [1]; ORun; ORun]) =
+    [EConnCb (-111); EQ 0; EWrite 0 1; ERet 0 0; EQ 1; ECb 0 (-32) 0; EConnect (-103); EConnect 0;
+     EConnCb 0; EQ 0; EQ 0].
+Proof. vm_compute. reflexivity. Qed.
 
 (* uv_try_write while a connect is pending *)
 Theorem try_write_while_connecting s bufs :
@@ -2783,7 +2953,7 @@ Proof.
                      | apply (SP_same _ _ eq_refl eq_refl eq_refl eq_refl (B H))].
   - unfold api_try.
     set (s0 := ev (ETry (next_id s) (sumN bufs)) (set_next_id (S (next_id s)) s)).
-    destruct (connecting s0 || negb (wqs s0 =? 0)); [split; [apply B3_same | apply SP_same]; auto|].
+    destruct (connecting s0 || cancelling s0 || negb (wqs s0 =? 0)); [split; [apply B3_same | apply SP_same]; auto|].
     destruct (check_before_write s0); [split; [apply B3_same | apply SP_same]; auto|].
     destruct (sys_write (oracle s0) (offered bufs)) as [res o']. destruct res;
       (split; [apply B3_same | apply SP_same]; auto).
@@ -2792,14 +2962,18 @@ Proof.
       [split; [apply B3_same | apply SP_same]; auto|].
     assert (Hs : shut s = false /\ closing s = false).
     { destruct (writable s), (shut s), (shutreq s), (closing s); try discriminate; auto. }
-    destruct Hs as [Hs Hcl]. cbn. destruct (wq s) eqn:Hq.
-    + split.
-      * intros [H|(N & Q & Cc)]; [congruence | right]. cbn. split; [intros _; exact Hs|]. split; [right; reflexivity | exact Cc].
-      * intros _. unfold SP; cbn. auto.
+    destruct Hs as [Hs Hcl]. cbn. destruct (connecting s) eqn:Hcn.
     + split.
       * intros [H|(N & Q & Cc)]; [congruence | right]. cbn. split; [intros _; exact Hs|]. split; [exact Q | exact Cc].
-      * intros _. unfold SP; cbn. destruct P as [_ [X|X]]; [congruence|].
-        destruct (connecting s); [destruct X as [_ X]; auto|]. destruct X as [X|X]; [congruence | auto].
+      * intros _. unfold SP; cbn. destruct P as [_ [X|X]]; [congruence|]. rewrite Hcn in X. destruct X as [_ X]; auto.
+    + destruct (wq s) eqn:Hq.
+      * split.
+        -- intros [H|(N & Q & Cc)]; [congruence | right]. cbn. split; [intros _; exact Hs|]. split; [right; reflexivity | exact Cc].
+        -- intros _. unfold SP; cbn. auto.
+      * split.
+        -- intros [H|(N & Q & Cc)]; [congruence | right]. cbn. split; [intros _; exact Hs|]. split; [exact Q | exact Cc].
+        -- intros _. unfold SP; cbn. destruct P as [_ [X|X]]; [congruence|].
+           rewrite Hcn in X. destruct X as [X|X]; [congruence | auto].
   - unfold api_close. destruct (closing s) eqn:Hc; [auto|]. split; intros _; [left | left]; reflexivity.
   - unfold api_write2.
     set (s0 := ev (EWrite2 (next_id s)) (ev (EWrite (next_id s) (sumN bufs)) (set_next_id (S (next_id s)) s))).
@@ -2841,7 +3015,7 @@ Lemma apis_b3_sp os : noconn os -> forall s, Prog s ->
 Proof.
   induction 1 as [|o os Ho Hos IH]; intros s P; cbn [apis]; [auto|].
   destruct (api_b3_sp s o Ho P) as [A B].
-  destruct (IH (api s o) (api_prog s o Ho P)) as [C D]. auto.
+  destruct (IH (api s o) (api_prog s o P)) as [C D]. auto.
 Qed.
 
 (* ------------------------------------------------------------------ *)
@@ -3248,7 +3422,8 @@ Proof.
     repeat match goal with |- context [match ?c with _ => _ end] => destruct c end; cbn; exact N.
   - unfold api_shutdown.
     destruct (negb (writable x) || shut x || shutreq x || closing x || closed x) eqn:Hcond; [exact N|].
-    cbn. intros _. destruct (wq x); cbn; destruct (writable x), (shut x), (shutreq x), (closing x); try discriminate; auto.
+    assert (Hs : shut x = false) by (destruct (writable x), (shut x), (shutreq x), (closing x); try discriminate; auto).
+    cbn. intros _. destruct (connecting x); [|destruct (wq x)]; cbn; exact Hs.
   - unfold api_close. destruct (closing x); [exact N | cbn; exact N].
   - destruct (api_write2_sr x bufs) as [A B]. rewrite A, B. exact N.
   - unfold api_write_nomem. destruct (check_before_write x); [|destruct (needs_alloc bufs); [exact N|]];
@@ -3322,7 +3497,7 @@ Lemma stream_connect_b3_sp s :
 Proof.
   intros F Hc HC H.
   destruct H as [Hcl|[N Cc]].
-  { destruct (stream_connect_kc beh Hbeh s) as [K _]. split; left; apply K; exact Hcl. }
+  { destruct (stream_connect_kc beh s) as [K _]. split; left; apply K; exact Hcl. }
   unfold stream_connect.
   match goal with |- context [let '(error, s1) := ?X in _] => destruct X as [error s1] eqn:HX end.
   assert (E1 : closing s1 = closing s /\ fdopen s1 = fdopen s /\ connecting s1 = connecting s /\
@@ -3363,7 +3538,7 @@ Proof.
     assert (Hc4 : connecting (flush s4) = false).
     { change (connecting (flush s4)) with (connecting s4). rewrite K4c. exact E3co. }
     assert (Pf : Prog (flush s4)) by (split; [exact F4|]; right; rewrite Hc4; left; reflexivity).
-    pose proof (write_callbacks_prog beh Hbeh _ Pf) as P5.
+    pose proof (write_callbacks_prog beh _ Pf) as P5.
     (* NS survives the callback although Prog does not hold inside it: uv_shutdown only sets the flags *)
     assert (N4 : closing s4 = true \/ NS s4).
     { right. unfold s4, run_cb. apply apis_ns; [apply Hbeh|].
@@ -3417,7 +3592,7 @@ Lemma stream_io_b3_sp s :
 Proof.
   intros [F H] Hn.
   destruct H as [Hcl|H].
-  { destruct (stream_io_kc beh Hbeh s) as [K _]. split; left; apply K; exact Hcl. }
+  { destruct (stream_io_kc beh s) as [K _]. split; left; apply K; exact Hcl. }
   unfold stream_io. destruct (connecting s) eqn:Hc; [apply stream_connect_b3_sp; auto|].
   destruct (uv_write_queue_frame s) as (A & B & C & D).
   destruct (uv_write_queue_q s) as (Q1 & Q2 & _ & _).
@@ -3427,12 +3602,12 @@ Proof.
   { destruct Hn as [X|[N _]]; [left; rewrite A; exact X | right]. split.
     - unfold NS. rewrite Q1, Q2. exact N.
     - unfold CC. rewrite C, Hc. discriminate. }
-  pose proof (write_callbacks_prog beh Hbeh _ P1) as P2.
+  pose proof (write_callbacks_prog beh _ P1) as P2.
   pose proof (write_callbacks_b3 _ P1 Hn1) as B2.
   destruct (write_callbacks_kc_cd beh Hbeh (uv_write_queue s)) as [_ [Cc _]].
   set (s2 := write_callbacks beh (uv_write_queue s)) in *.
   assert (Hc2 : connecting s2 = false) by (rewrite Cc, C; exact Hc).
-  destruct (wq s2) eqn:Hq.
+  rewrite Hc2. destruct (wq s2) eqn:Hq.
   - destruct (cq s2) eqn:Hcq.
     + apply drain_b3_sp; [apply P2 | exact Hc2|].
       destruct B2 as [Y|(Y & _)]; [left; exact Y | right; auto].
@@ -3451,7 +3626,7 @@ Proof.
   intros (P & B & S). unfold run_pending. destruct (fed s); [|split; [|split]; assumption].
   assert (Pre : PreIO (set_fed false s)) by (destruct (Prog_PreIO _ P) as [F H]; split; [exact F | exact H]).
   assert (Hn : closing (set_fed false s) = true \/ (NS (set_fed false s) /\ CC (set_fed false s))) by (apply (B3_weak s B)).
-  split; [apply (stream_io_prog beh Hbeh); auto | apply stream_io_b3_sp; auto].
+  split; [apply (stream_io_prog beh); auto | apply stream_io_b3_sp; auto].
 Qed.
 
 Lemma pending_rounds_q3 k : forall s, Q3 s -> Q3 (pending_rounds beh k s).
@@ -3467,10 +3642,10 @@ Proof.
   match goal with |- context [flush ?x] => set (sc1 := x) end.
   assert (K1 : KC s sc1).
   { unfold sc1. destruct (connecting s0); [|apply KC_same; reflexivity].
-    eapply KC_trans; [apply (KC_same s (ev (EConnCb UV_ECANCELED) s0)); reflexivity|].
-    eapply KC_trans; [apply run_cb_kc_cd; auto|]. apply KC_same; reflexivity. }
-  destruct (write_callbacks_kc_cd beh Hbeh (flush sc1)) as [K2 _].
-  pose proof (drain_kc beh Hbeh (write_callbacks beh (flush sc1))) as K3.
+    eapply KC_trans; [apply (KC_same s (ev (EConnCb UV_ECANCELED) (set_cancelling true (set_connecting false s0)))); reflexivity|].
+    eapply KC_trans; [apply run_cb_kc|]. apply KC_same; reflexivity. }
+  pose proof (write_callbacks_kc beh (flush sc1)) as K2.
+  pose proof (drain_kc beh (write_callbacks beh (flush sc1))) as K3.
   change (closing (drain beh (write_callbacks beh (flush sc1))) = true).
   destruct K1 as [K1 _]. destruct K2 as [K2 _]. destruct K3 as [K3 _].
   apply K3, K2. change (closing (flush sc1)) with (closing sc1). apply K1. exact Hc.
@@ -3487,13 +3662,13 @@ Proof.
   match goal with |- context [if armed s1' && ?w then _ else _] => set (b := armed s1' && w) end.
   assert (H2 : Q3 (if b then stream_io beh s1' else s1')).
   { destruct b; auto. destruct H1 as (P & B & S).
-    split; [apply (stream_io_prog beh Hbeh), Prog_PreIO, P | apply stream_io_b3_sp; [apply Prog_PreIO, P | apply B3_weak, B]]. }
+    split; [apply (stream_io_prog beh), Prog_PreIO, P | apply stream_io_b3_sp; [apply Prog_PreIO, P | apply B3_weak, B]]. }
   pose proof (pending_rounds_q3 8 _ H2) as H3.
   match goal with |- context [if closing ?x && _ then _ else _] => set (s3 := x) in * end.
   destruct (closing s3 && negb (closed s3)) eqn:Hc; auto.
   apply andb_prop in Hc. destruct Hc as [Hc _].
   destruct H3 as (P3 & _ & _).
-  pose proof (destroy_prog beh Hbeh s3 (proj1 P3) Hc) as Pd.
+  pose proof (destroy_prog beh s3 (proj1 P3) Hc) as Pd.
   pose proof (destroy_closing s3 Hc) as Hcd.
   split; [exact Pd | split; left; exact Hcd].
 Qed.
@@ -3656,7 +3831,7 @@ Qed.
 Example shutdown_while_connecting_former_witnesses :
   trace (exec (fun _ => []) (init false [] 0%Z [] (Some (true, Some 115%positive, [0%Z], [])) false)
               [OShutdown; ORun; ORun]) =
-    [EShut 0; EQ 0; EConnCb 0; ESysShut 0; EShutCb 0; EQ 0; EQ 0] /\
+    [EShut 0; EQ 0; EConnCb 0; EQ 0; ESysShut 0; EShutCb 0; EQ 0] /\
   trace (exec (fun _ => []) (init false [] 0%Z [] (Some (true, Some 115%positive, [111%Z], [])) false)
               [OWrite [3]; OShutdown; ORun; ORun]) =
     [EWrite 0 3; ERet 0 0; EQ 3; EShut 0; EQ 3; EConnCb (-111); ECb 0 UV_ECANCELED 0;
